@@ -10,9 +10,11 @@ import (
 	"path/filepath"
 	"regexp"
 	"sort"
+	"strconv"
 	"strings"
 	"sync"
 	"time"
+	"unicode/utf8"
 
 	"github.com/mitchellh/go-homedir"
 	"github.com/pgavlin/dawn/internal/mvs"
@@ -416,9 +418,87 @@ func (proj *Project) unknownTarget(label string) error {
 	return UnknownTargetError(fmt.Sprintf("unknown target %v", label))
 }
 
+// A depStamps maps the labels of a target's dependencies to the stamps the target last ran against.
+//
+// Labels of source files contain file names, which need not be valid UTF-8, and encoding/json replaces every
+// invalid byte of a string by U+FFFD. The keys are therefore escaped reversibly when the map is written: an
+// invalid byte b becomes U+FFFD followed by two hex digits, and a genuine U+FFFD becomes U+FFFD "--". Keys
+// without invalid bytes and without U+FFFD, i.e. all keys written by earlier versions, are stored unchanged.
+type depStamps map[string]string
+
+func escapeLabel(s string) string {
+	if utf8.ValidString(s) && !strings.ContainsRune(s, utf8.RuneError) {
+		return s
+	}
+	var b strings.Builder
+	for i := 0; i < len(s); {
+		r, n := utf8.DecodeRuneInString(s[i:])
+		switch {
+		case r == utf8.RuneError && n == 1:
+			fmt.Fprintf(&b, "\uFFFD%02x", s[i])
+		case r == utf8.RuneError:
+			b.WriteString("\uFFFD--")
+		default:
+			b.WriteString(s[i : i+n])
+		}
+		i += n
+	}
+	return b.String()
+}
+
+func unescapeLabel(s string) string {
+	if !strings.ContainsRune(s, utf8.RuneError) {
+		return s
+	}
+	const esc = "\uFFFD"
+	var b strings.Builder
+	for i := 0; i < len(s); {
+		if strings.HasPrefix(s[i:], esc) && i+len(esc)+2 <= len(s) {
+			arg := s[i+len(esc) : i+len(esc)+2]
+			if arg == "--" {
+				b.WriteString(esc)
+				i += len(esc) + 2
+				continue
+			}
+			if v, err := strconv.ParseUint(arg, 16, 8); err == nil {
+				b.WriteByte(byte(v))
+				i += len(esc) + 2
+				continue
+			}
+		}
+		b.WriteByte(s[i])
+		i++
+	}
+	return b.String()
+}
+
+func (d depStamps) MarshalJSON() ([]byte, error) {
+	escaped := make(map[string]string, len(d))
+	for k, v := range d {
+		escaped[escapeLabel(k)] = v
+	}
+	return json.Marshal(escaped)
+}
+
+func (d *depStamps) UnmarshalJSON(data []byte) error {
+	var escaped map[string]string
+	if err := json.Unmarshal(data, &escaped); err != nil {
+		return err
+	}
+	if escaped == nil {
+		*d = nil
+		return nil
+	}
+	*d = make(depStamps, len(escaped))
+	for k, v := range escaped {
+		(*d)[unescapeLabel(k)] = v
+	}
+	return nil
+}
+
 type targetInfo struct {
-	Doc          string            `json:"doc,omitempty"`
-	Dependencies map[string]string `json:"dependencies,omitempty"`
+	Doc          string    `json:"doc,omitempty"`
+	Dependencies depStamps `json:"dependencies,omitempty"`
 	Data         string            `json:"stamp,omitempty"`
 	Rerun        bool              `json:"rerun,omitempty"`
 	// Runs counts the successful executions of a function target. It is part of the stamp seen by
